@@ -553,6 +553,29 @@ def only_once_note_diff(diff: list[str]) -> bool:
     return True
 
 
+def import_error_order_diff(a: dict, b: dict, diff: list[str]) -> bool:
+    """F36 predicate: the two outputs have the same lines; the only difference is the relative order, within one
+    source line, of 'Cannot find implementation or library stub' errors (a package and its submodule named by one
+    import statement) and the only_once note that follows the first of them."""
+    if not diff or not all(d.startswith("~order differs in ") for d in diff):
+        return False
+    import re
+    for d in diff:
+        f = d[len("~order differs in "):]
+        la, lb = a["files"].get(f, []), b["files"].get(f, [])
+        if sorted(la) != sorted(lb):
+            return False
+        movable = lambda l: ("Cannot find implementation or library stub" in l or "module is installed, but missing library stubs" in l
+                             or any(n in l for n in ONLY_ONCE_NOTES[:3]))
+        if [l for l in la if not movable(l)] != [l for l in lb if not movable(l)]:
+            return False
+        linenos = {m.group(1) for l in la if movable(l) and l in la and (m := re.match(r"[^:]+:(\d+):", l))}
+        moved = {m.group(1) for l, r in zip(la, lb) if l != r for x in (l, r) if (m := re.match(r"[^:]+:(\d+):", x))}
+        if len(moved) != 1:
+            return False
+    return True
+
+
 USER_PREFIXES = ("m0", "m1", "m2", "m3", "m4", "pkg")
 
 
